@@ -58,8 +58,11 @@ def style(rng, depth, avoid=()):
     maybe(0.03, 'opacity', ['0', '0.5', '1'])
     maybe(0.03, 'transform', ['rotate(10deg)', 'scale(0)', 'translate(10px, 5px)'])
     maybe(0.03, 'box-sizing', ['border-box', 'content-box'])
-    maybe(0.03, 'flex', ['1', '0 0 auto', '2 1 0', 'none'])
-    maybe(0.02, 'gap', ['0', '5px', '30px'])
+    maybe(0.03, 'flex', ['1', '0 0 auto', '2 1 0', 'none', '1 1 50%', '0 0 100%', '0 1 0%'])
+    # percentages in flex / grid properties resolve against sizes that may be indefinite (auto heights)
+    maybe(0.03, 'flex-basis', ['50%', '0', '100%', '10px', 'content', 'auto', '0%'])
+    maybe(0.02, 'gap', ['0', '5px', '30px', '10%', '5% 20%'])
+    maybe(0.01, 'row-gap', ['10%', '100%', '3px'])
     maybe(0.02, 'flex-direction', ['row', 'column', 'row-reverse', 'column-reverse'])
     maybe(0.02, 'flex-wrap', ['wrap', 'nowrap', 'wrap-reverse'])
     maybe(0.02, 'grid-template-columns', ['1fr 1fr', '10px auto', 'repeat(3, 1fr)', '100px'])
